@@ -26,11 +26,12 @@ KEYS = {"BackSpace": "backSpace", "Delete": "delete", "KP_Left": "kpLeft", "KP_R
 CODE2NAME = {sc.XK[k]: k for k in KEYS}
 
 
-def buf_step(text, caret, code):
-    """the specification (same as RimeModel.Session.Buf.step)"""
-    if 0x20 < code < 0x7f:
+def buf_step(text, caret, code, k=None):
+    """the specification (same as RimeModel.Session.Buf.step); `k` names the editing action when the key is not one of the
+    default ones (schemas with `bindings`)"""
+    if k is None and 0x20 < code < 0x7f:
         return text[:caret] + bytes([code]) + text[caret:], caret + 1
-    k = CODE2NAME[code]
+    k = k or CODE2NAME[code]
     if k == "BackSpace":
         return (text, caret) if caret == 0 else (text[:caret - 1] + text[caret:], caret - 1)
     if k == "Delete":
@@ -70,6 +71,196 @@ def monitor(state, op, o):
 
 IN_CLASS = ["vs_script", "vs_fluid", "vs_multi", "vs_semi", "vs_semif"]
 
+# ------------------------------------------------------------------ schemas with `bindings` sections (no model behind them)
+# The standard editors and the navigator load user bindings (KeyBindingProcessor::LoadConfig, Editor::LoadConfig).  These
+# schemas leave every default editing key on its standard action and put the same standard actions on further keys; the
+# sections also hold what LoadConfig has to step over (an unknown action name, a key name that does not parse, an entry that
+# is not a scalar) and `noop` entries (one removes a default binding, one names a key that has none).  The map is read in
+# key order, so every kind of entry is followed by a binding whose effect the runs observe.  The property is evaluated with
+# the text buffer directly: each key bound to a standard action must act as that action's default key does.
+BIND_SCHEMAS = {
+    "vm_bind": dict(
+        editor="express_editor",
+        yaml=["editor:", "  char_handler: direct_commit", "  bindings:",
+              "    BackSpace: revert", "    Control+Return: noop", "    Control+d: delete", "    Control+g: cancel", "    Control+h: back",
+              "    F10: no_such_action", "    F11: [cancel]", "    F12: noop", "    NoSuchKey: cancel", "    Shift+F9: cancel",
+              "navigator:", "  bindings:",
+              "    Control+Left: noop", "    Control+a: home", "    Control+b: left_by_char", "    Control+e: end", "    Control+f: right_by_char",
+              "    F10: bogus", "    Left: left_by_char", "    NoSuchKey: home", "    Shift+F8: end",
+              "  vertical:", "    bindings:", "      Left: right_by_char",
+              "selector:", "  bindings:", "    F10: bogus", "    F7: home"],
+        keys={("Control+d",): "Delete", ("Control+g",): "Escape", ("Control+h",): "BackSpace", ("Shift+F9",): "Escape",
+              ("Control+a",): "Home", ("Control+b",): "KP_Left", ("Control+e",): "End", ("Control+f",): "Right", ("Left",): "KP_Left",
+              ("Shift+F8",): "End"}),
+    "vm_bindf": dict(
+        editor="fluid_editor",
+        yaml=["editor:", "  char_handler: no_such_handler", "  bindings:",
+              "    BackSpace: back", "    Control+Delete: noop", "    Control+k: cancel", "    Control+x: delete", "    Delete: delete",
+              "    Escape: cancel", "    F10: Confirm", "    F6: revert", "    Shift+Return: noop",
+              "navigator:", "  bindings:",
+              "    End: end", "    F10: [home]", "    F5: right_by_char", "    Home: home", "    KP_Left: left_by_char", "    Left: left_by_char",
+              "    Right: right_by_char", "    Shift+Right: noop", "    Shift+Tab: left_by_char", "    Tab: right_by_char"],
+        keys={("Control+k",): "Escape", ("Control+x",): "Delete", ("F6",): "BackSpace", ("F5",): "Right", ("Left",): "KP_Left",
+              ("Shift+Tab",): "KP_Left", ("Tab",): "Right"}),
+}
+sc.KEYNAMES.update({"F7": 0xffc4, "F8": 0xffc5, "F9": 0xffc6, "F10": 0xffc7, "F11": 0xffc8, "F12": 0xffc9})
+
+
+def bind_yaml(sid, s):
+    y = ["schema:", "  schema_id: %s" % sid, "  name: %s" % sid, "  version: '1'", "engine:", "  processors:"]
+    y += ["    - %s" % p for p in ["speller", "selector", "navigator", s["editor"]]]
+    y += ["  segmentors:", "    - abc_segmentor", "    - fallback_segmentor", "  translators:", "    - vt_translator",
+          "speller:", "  alphabet: 'abc'", '  delimiter: "\'"', "menu:", "  page_size: 3"] + s["yaml"]
+    return "\n".join(y) + "\n"
+
+
+def bind_keymap(s):
+    """(keycode, mask) -> the default key whose action the key is bound to"""
+    km = {(sc.XK[k], 0): k for k in KEYS}
+    for (rep,), k in s["keys"].items():
+        km[sc.kev(rep)] = k
+    return km
+
+
+def bind_monitor(state, op, o):
+    """the text buffer on a schema of BIND_SCHEMAS: as `monitor`, with the schema's own key table"""
+    w = op.split(" ")
+    if w[0] != "key" or "nocontext" in o:
+        if w[0] in ("new", "schema"):
+            state["buf"] = (b"", 0)
+        return None
+    code, mask = int(w[1]), int(w[2])
+    text, caret = state.get("buf", (b"", 0))
+    letter = mask == 0 and 0x20 < code < 0x7f
+    k = None if letter else state["keymap"][(code, mask)]
+    handled_expected = bool(text) or letter
+    text, caret = buf_step(text, caret, code, k)
+    state["buf"] = (text, caret)
+    if sc.unhex(o.get("input")) != text:
+        return "input!=buffer"
+    if int(o.get("caret", -1)) != caret:
+        return "caret!=buffer"
+    if (o.get("ret") == "1") != handled_expected:
+        return "handled-flag"
+    if sc.unhex(o.get("pending")):
+        return "committed"
+    return None
+
+
+def bind_histories(c, sid, quick):
+    s = BIND_SCHEMAS[sid]
+    keys = sorted(bind_keymap(s))
+    letters = [ord("a"), ord("b")]
+    hs = []
+    # every key after every buffer of up to two letters with the caret at each place, twice in a row, then a letter and a BackSpace
+    for w in ([], [97], [97, 98], [98, 97, 97]):
+        for back in range(len(w) + 1):
+            pre = ["key %d 0" % x for x in w] + ["key %d 0" % sc.XK["KP_Left"]] * back
+            for (code, mask) in keys:
+                hs.append(pre + ["key %d %d" % (code, mask)] * 2 + ["key 97 0", "key %d 0" % sc.XK["BackSpace"], "key %d %d" % (code, mask)])
+    for _ in range(10 if quick else 150):
+        h = []
+        for _ in range(50 if quick else 300):
+            h.append("key %d 0" % c.rng.choice(letters) if c.rng.random() < 0.45 else "key %d %d" % c.rng.choice(keys))
+        hs.append(h)
+    return hs
+
+
+def bind_all_keys(s):
+    """every key the `bindings` sections of the schema name — bound to an action, to `noop`, to an unknown action, to a
+    non-scalar — as (keycode, mask); names KeyEvent::Parse rejects are left out"""
+    import re
+    out = []
+    for l in s["yaml"]:
+        m = re.match(r"\s{4,}([\w+]+): ", l)
+        if not m:
+            continue
+        try:
+            k = sc.kev(m.group(1))
+        except KeyError:
+            continue
+        if k not in out:
+            out.append(k)
+    return out
+
+
+def bind_crash_histories(rng, sid, n_random):
+    """for the no-crash property: every key named in the schema's bindings sections, pressed idle, composing, with the menu
+    paged, with the caret inside and after a selection (twice in a row, then a letter and the key again), plus random mixes"""
+    s = BIND_SCHEMAS[sid]
+    keys = bind_all_keys(s) + [(sc.XK[k], 0) for k in ("Left", "Right", "Up", "Down", "Return", "space", "BackSpace", "Delete", "Escape")] + \
+        [(sc.XK["Return"], sc.CONTROL), (sc.XK["Return"], sc.SHIFT), (sc.XK["Delete"], sc.CONTROL), (sc.XK["Left"], sc.CONTROL), (sc.XK["Right"], sc.SHIFT)]
+    A, B = "key 97 0", "key 98 0"
+    states = [[], [A], [A, B, A], [A, "key %d 0" % sc.XK["Next"]], [A, B, "key %d 0" % sc.XK["KP_Left"]], [A, B, A, "select 1"], ["option _vertical 1", A, B]]
+    hs = []
+    for (code, mask) in keys:
+        key = "key %d %d" % (code, mask)
+        for st in states:
+            hs.append(st + [key, key, A, key, "key %d 0" % sc.XK["space"], "read_commit"])
+    for _ in range(n_random):
+        h = []
+        for _ in range(80):
+            r = rng.random()
+            h.append("key %d 0" % rng.choice([97, 98, 99]) if r < 0.4 else "key %d %d" % rng.choice(keys) if r < 0.9 else
+                     rng.choice(["select 1", "page +", "caret 1", "option _vertical 1", "option _vertical 0", "commit", "clear"]))
+        hs.append(h)
+    return hs
+
+
+def bind_workspace(c, name="ws_bind"):
+    ws = os.path.join(c.work, name)
+    sc.make_workspace(ws, sorted(BIND_SCHEMAS), extra_files={sid + ".schema.yaml": bind_yaml(sid, s) for sid, s in BIND_SCHEMAS.items()})
+    return ws
+
+
+def bind_eval(c, exe, ws, rows, sid, histories, tag):
+    """the histories of one schema in one harness run; returns (rc, log, [(history_no, op_no, op, clause, line)] first per history, ops run)"""
+    script, index = sc.make_script(rows, [(sid, h) for h in histories])
+    p = os.path.join(c.work, "%s.script" % tag)
+    with open(p, "w") as f:
+        f.write(script)
+    rc, out = sc.run_impl(exe, ws, p)
+    impl = [l for l in out.splitlines() if l.startswith("ret=") or l == "bad-op"]
+    km = bind_keymap(BIND_SCHEMAS[sid])
+    states, bad, n = {}, {}, 0
+    for i, (h, j, op) in enumerate(index):
+        if i >= len(impl):
+            break
+        st = states.setdefault(h, {"keymap": km})
+        why = bind_monitor(st, op, sc.parse_obs(impl[i]))
+        n += j >= 0
+        if why and j >= 0 and h not in bad:
+            bad[h] = (h, j, op, why, impl[i])
+    if len(impl) < len(index) and rc == 0:
+        rc = -1
+    return rc, out[-2500:], [bad[h] for h in sorted(bad)], n
+
+
+def bind_check(c, exe, quick):
+    """runs BIND_SCHEMAS; reports violations (shrunk); returns evidence counts"""
+    st = {"schemas": sorted(BIND_SCHEMAS), "histories": 0, "ops": 0, "violations": 0, "aborts": 0, "keys_with_user_binding": 0}
+    ws = os.path.join(c.work, "ws_bind")
+    sc.make_workspace(ws, sorted(BIND_SCHEMAS), extra_files={sid + ".schema.yaml": bind_yaml(sid, s) for sid, s in BIND_SCHEMAS.items()})
+    rows = sc.gen_table(c.rng, "abc")
+    for sid in sorted(BIND_SCHEMAS):
+        hs = bind_histories(c, sid, quick)
+        st["keys_with_user_binding"] += len(BIND_SCHEMAS[sid]["keys"])
+        rc, log, bad, n = bind_eval(c, exe, ws, rows, sid, hs, "bind_" + sid)
+        st["histories"] += len(hs)
+        st["ops"] += n
+        if rc != 0:
+            st["aborts"] += 1
+        for (h, j, op, why, line) in bad[:1]:
+            st["violations"] += 1
+            ops = hs[h][:j + 1]
+            fails = lambda t: any(b[3] == why for b in bind_eval(c, exe, ws, rows, sid, [t], "bind_sh")[2])
+            small = sc.ddmin(ops, fails)
+            c.report("C05:%s:%s" % (sc.op_kind(small[-1]), why),
+                     "text-buffer refinement violated (%s) after %d keys on %s (standard editor and navigator with a `bindings` section)" % (why, len(small), sid),
+                     {"kind": "impl-violation", "schema": sid, "schema_yaml": bind_yaml(sid, BIND_SCHEMAS[sid]), "table": rows, "ops": small,
+                      "observation": line, "clause": why})
+    return st
+
 
 def histories(c, quick):
     rows_for, hs = {}, []
@@ -86,9 +277,19 @@ def histories(c, quick):
             for seq in itertools.product(alphabet, repeat=n):
                 # only maximal-length sequences plus a sample of shorter ones: prefixes are covered by the longer ones
                 if n == depth:
-                    hs.append((sid, ["key %d 0" % k for k in seq], sid))
+                    # + one more editing key: the handled flag of a key depends on the state the sequence left behind
+                    hs.append((sid, ["key %d 0" % k for k in seq] + ["key %d 0" % sc.XK["BackSpace"]], sid))
         for _ in range(12 if quick else 120):
             hs.append((sid, sc.gen_history(c.rng, sid, s, 60 if quick else 400, "edit"), sid))
+        # long buffers (beyond 256 letters): typed at the end, passed by inserting at an inner caret and at the start, shortened
+        # from both ends and in the middle, cleared
+        if sid in ("vs_script", "vs_fluid") or not quick:
+            a, b = "key %d 0" % letters[0], "key %d 0" % letters[1]
+            K = lambda name: "key %d 0" % sc.XK[name]
+            hs.append((sid, [a] * 253 + [b] * 6 + [K("BackSpace")] * 2 + [K("Home"), b, b, K("KP_Right"), a, K("End"), b, K("KP_Left"), K("Delete"),
+                             K("Home"), K("Delete"), K("Escape"), a], sid))
+            hs.append((sid, [a] * 250 + [K("Home")] + [b] * 8 + [K("KP_Left")] * 3 + [a] * 3 + [K("End"), a, K("BackSpace"), K("KP_Right"), b], sid))
+            hs.append((sid, [a] * 128 + [K("KP_Left")] * 64 + [b] * 130 + [K("Delete"), K("BackSpace"), K("End"), a, K("Home"), K("KP_Left"), b], sid))
     return hs, rows_for
 
 
@@ -109,21 +310,30 @@ def run(c):
     ws = sc.make_workspace(os.path.join(c.work, "ws"), list(sc.SCHEMAS))
     hs, rows_for = histories(c, quick)
     stats = sc.session_check(c, "C05", monitor, hs, rows_for, exe, ws, "text-buffer refinement")
+    bst = bind_check(c, exe, quick)
     if not audit["ok"] and not c.violations:
         c.report("C05:proof", "proof obligation no longer checks: %s" % "; ".join("%s: %s" % f for f in audit["failures"])[:600],
                  {"kind": "proof", "broken_theorems": audit["failures"], "lean_log": audit["log"][-3000:]}, no_input=True)
     cov = vlib.proof_cov(audit, "lake build RimeModel.Props.C05 && #print axioms (all theorems) && forbidden-token scan"
                          + ("" if quick else " && leanchecker"), vlib.STD_TRUSTED + ["translator gen/keymaps.py"])
     cov.update({"evaluations": stats["ops"], "distinct_nontrivial": stats["distinct_nontrivial"],
-                "rule": "all key sequences of length %d over {2 letters, BackSpace, Delete, KP_Left, KP_Right, Right, Home, End, Escape} plus seeded random long sequences, on the 5 synthetic schemas of the class (express and fluid editors); non-trivial = observation in a composing state; distinct by (schema, observation line)" % (3 if quick else 4),
+                "rule": "all key sequences of length %d over {2 letters, BackSpace, Delete, KP_Left, KP_Right, Right, Home, End, Escape} each followed by one more BackSpace, three directed sequences with buffers of 250-330 letters (typed at the end, inserted at an inner caret and at the start, deleted from both ends), plus seeded random long sequences, on the 5 synthetic schemas of the class (express and fluid editors); non-trivial = observation in a composing state; distinct by (schema, observation line)" % (3 if quick else 4),
                 "samples": stats["samples"] or [{"schema": hs[0][0], "ops": hs[0][1]}], "histories": stats["histories"],
                 "op_kind_distribution": stats["kinds"], "model_impl_disagreements": stats["diffs"],
                 "monitor_violations": stats["violations"], "sanitizer_aborts_skipped": stats["crashes"],
-                "proof_failures": audit["failures"]})
+                "proof_failures": audit["failures"], "schemas_with_bindings_sections": bst})
+    cov["evaluations"] += bst["ops"]
     c.cov = cov
     c.assumptions = ["schema in class Cfg05 (checked for the corpus schemas by construction of the generated YAML)",
-                     "no selection made, options _linear/_vertical/_horizontal off, no user key rebinding"]
+                     "no selection made, options _linear/_vertical/_horizontal off; user bindings only where they put the standard actions on further keys (the vm_bind* schemas, text buffer evaluated directly, no model)"]
 
 
 def replay(c, r):
+    if r.get("schema") in BIND_SCHEMAS:
+        exe = sc.build()
+        ws = os.path.join(c.work, "ws_bind")
+        sc.make_workspace(ws, sorted(BIND_SCHEMAS), extra_files={sid + ".schema.yaml": bind_yaml(sid, s) for sid, s in BIND_SCHEMAS.items()})
+        rc, log, bad, n = bind_eval(c, exe, ws, [tuple(x) for x in r["table"]], r["schema"], [r["ops"]], "rp")
+        print("rc=%d first_viol=%s" % (rc, bad[:1]))
+        return 1 if (rc != 0 or bad) else 0
     return sc.replay_history(c, r, monitor)
